@@ -10,10 +10,22 @@ Lean driver uses to re-check every relation line of the real runs (`cg_relcheck`
 * `compose_raw_identity`: the same before reduction with the explicit substitution;
 * `compose_dirichlet`: when `gcd(a1, a2, (b1+b2)/2) = 1` the result is, up to proper equivalence, the Dirichlet
   composition of two forms properly equivalent to the inputs (`Comp`, the relation `relation_genuine` is stated with);
-* `compose_concordant`: on literally concordant inputs it is properly equivalent to `(a1 a2, b, c)`.
+* `compose_concordant`: on literally concordant inputs it is properly equivalent to `(a1 a2, b, c)`;
+* `reduce_reduced`: the fuel `reduceFuel` of the model suffices (positive definite forms): the output of `Form.reduce`
+  is reduced, `-a < b ≤ a ≤ c`, `b ≥ 0` when `a = c`; `reduce_mem_reducedForms`: for a primitive form it is one of the
+  forms `classNumber` counts (every class has a representative in the enumeration). NOT PROVED: two properly equivalent
+  reduced forms are equal (the uniqueness half of Gauss' theorem), so "equal reduced forms" is only a SUFFICIENT
+  condition for "same class" (which is the direction the driver's re-check of a relation line uses);
+* `relation_genuine_conductor`: `relation_genuine` for a non-fundamental discriminant with the primitivity hypothesis
+  discharged from the rejection of conductor primes the code performs;
+* `add_equal_larges_panics`, `store_total_iff_distinct`: the `assert!(p != q)` of `CRelationSet::add`: exact condition;
+* `emitted_relations_genuine`: `emit_hom` composed with `relation_genuine`: every emitted relation is genuine.
 -/
+import Ymq.Props.C18
 import Ymq.Props.C18Forms
 import Ymq.Lemmas.ClassGroupGauss
+import Ymq.Lemmas.ClassGroupReduce
+import Ymq.Lemmas.ClassGroupConductor
 
 namespace Ymq.C18
 open Ymq.ClassGroup
@@ -112,6 +124,127 @@ theorem compose_concordant (a1 a2 b c : Int) (h1 : 0 < a1) (h2 : 0 < a2) (hg : g
   · rw [if_neg h]
     exact composeCore_concordant a1 a2 b c h1 (by omega) hg
 
+
+/-! ### reduction -/
+
+/-- (2) THE FUEL OF `Form.reduce` SUFFICES and its output is reduced. Positive definite form (`a > 0`, `D < 0`): with the
+fuel `reduceFuel f = 2 (log2 a + log2 c) + 8` of the model the result satisfies `-a < b ≤ a ≤ c`, `b ≥ 0` when `a = c`
+(the boundary conventions of `Form.isReducedPrim`), is properly equivalent to `f` and has the same discriminant.
+(`log2 a + 3` iterations are enough: the first coefficient halves at every swap except possibly the last one.) -/
+theorem reduce_reduced (f : Form) (ha : 0 < f.a) (hd : f.disc < 0) :
+    IsReducedPD (f.reduce (reduceFuel f)) ∧ PEquiv f (f.reduce (reduceFuel f)) ∧
+      (f.reduce (reduceFuel f)).disc = f.disc :=
+  ⟨reduceFuel_suffices f ha hd, (reduce_pequiv f _).2⟩
+
+/-- the same for every fuel `≥ log2 a + 3` -/
+theorem reduce_reduced_fuel (f : Form) (ha : 0 < f.a) (hd : f.disc < 0) (fuel : Nat)
+    (hf : f.a.natAbs.log2 + 3 ≤ fuel) : IsReducedPD (f.reduce fuel) := by
+  apply reduce_terminates (f.a.natAbs.log2 + 1) _ f ha hd
+  · have := Nat.lt_log2_self (n := f.a.natAbs)
+    have e : f.a = (f.a.natAbs : Int) := by omega
+    rw [e]; exact_mod_cast this
+  · omega
+
+/-- (2') For a PRIMITIVE positive definite form the reduced form computed by the model is one of the forms enumerated
+by `reducedForms` (whose number is `classNumber`): every proper equivalence class of primitive forms of discriminant
+`D < 0` has a representative in the enumeration. (Uniqueness of that representative is not proved.) -/
+theorem reduce_mem_reducedForms (f : Form) (ha : 0 < f.a) (hd : f.disc < 0) (hp : gcd3 f.a f.b f.c = 1) :
+    f.reduce (reduceFuel f) ∈ reducedForms f.disc := by
+  obtain ⟨h1, h2, h3⟩ := reduce_reduced f ha hd
+  apply reducedForms_complete
+  rw [← h3]
+  exact isReducedPrim_of_PD h1 (pequiv_gcd3 h2 hp)
+
+/-! ### non-fundamental discriminants -/
+
+/-- (3) `relation_genuine` FOR A NON-FUNDAMENTAL DISCRIMINANT: the primitivity hypothesis `hprim` is discharged from
+what the code does. `D` is odd or `D/4 ≡ 2, 3 (mod 4)` (`h16`: what `classgroup()` guarantees for a type 1 polynomial,
+since it reduces `D = 4N`, `N ≡ 1 mod 4` to `N`), the candidate primes are primes (`hfp`), every odd candidate prime
+whose square divides `D` is in the conductor list (`hcond`: `classgroup()` lists the factor-base primes with `r = 0`
+and `p² ∣ D`), and — NAMED HYPOTHESES about parts that are not modelled — no prime of `A` and no large prime has its
+square dividing `D` (`hafs`, `hlarge`: `select_siqs_factors` is not modelled; a conductor prime above the factor base
+is invisible to the code). Then a relation that was NOT rejected (`relationOf = .rel r`) is genuine. -/
+theorem relation_genuine_conductor (D : Int) (type1 : Bool) (a b c x : Int) (maxprime maxlarge : Nat)
+    (double : Bool) (conductor : List Nat) (fb : List (Nat × Nat)) (facs : List Nat)
+    (afs : List (Nat × Nat)) (lp lq : Nat) (r : Rel)
+    (hb : 0 ≤ b) (hdisc : polyDisc type1 a b c = D) (hty : type1 = true ↔ (2 : Int) ∣ D)
+    (h16 : D % 2 = 1 ∨ D % 16 = 8 ∨ D % 16 = 12)
+    (hfacs : ∀ p ∈ facs, FbOk D type1 conductor fb p) (hfp : ∀ q ∈ facs, q.Prime)
+    (hcond : ∀ q ∈ facs, q ≠ 2 → ((q : Int) * q ∣ D) → q ∈ conductor)
+    (hafs : ∀ pr ∈ afs, pr.1.Prime ∧ pr.1 ≠ 2 ∧ ¬ ((pr.1 : Int) * pr.1 ∣ D) ∧
+      ∃ ref, bPlus pr.1 pr.2 type1 = some ref ∧ IsBPlus D pr.1 ref)
+    (haprod : a = ((afs.map Prod.fst).prod : Nat))
+    (hrel : relationOf type1 a b c x maxprime maxlarge double conductor fb facs afs lp lq = .rel r)
+    (hlarge : ∀ pe, (r.large1 = some pe ∨ r.large2 = some pe) →
+      pe.1.Prime ∧ pe.1 ≠ 2 ∧ ¬ ((pe.1 : Int) * pe.1 ∣ D)) :
+    (∀ pe ∈ r.entries, pe.2 ≠ 0 → pe.1.Prime ∧ IsBPlus D pe.1 (theRoot D pe.1)) ∧
+    ∃ L, L.Perm (expand D (theRoot D) r.entries) ∧ IsProduct D L (principal D) := by
+  apply relation_genuine D type1 a b c x maxprime maxlarge double conductor fb facs afs lp lq r
+    hb hdisc hty hfacs (fun pr h => ⟨(hafs pr h).1, (hafs pr h).2.1, (hafs pr h).2.2.2⟩) haprod hrel
+    (fun pe h => ⟨(hlarge pe h).1, (hlarge pe h).2.1⟩)
+  exact hprim_of_conductor D type1 a b c x maxprime maxlarge double conductor fb facs afs lp lq r hdisc h16 hfp
+    hcond (fun pr h => ⟨(hafs pr h).1, (hafs pr h).2.2.1⟩) haprod hrel
+    (fun pe h => ⟨(hlarge pe h).1, (hlarge pe h).2.2⟩)
+
+/-! ### the `assert!(p != q)` of `CRelationSet::add` -/
+
+/-- (4) the panic site of `CRelationSet::add` itself: a relation whose two large primes are equal fires
+`assert!(p != q)` (all profiles), whatever the state of the store -/
+theorem add_equal_larges_panics (s : CSet) (r : Rel) (p : Nat) (e1 e2 : Int)
+    (h1 : r.large1 = some (p, e1)) (h2 : r.large2 = some (p, e2)) : add s r = none := by
+  unfold add; rw [h1, h2]; simp
+
+theorem run_none_of_equal_larges : ∀ (rs : List Rel) (s : CSet),
+    (∃ r ∈ rs, ∃ p e1 e2, r.large1 = some (p, e1) ∧ r.large2 = some (p, e2)) → run s rs = none
+  | [], _, h => by simp at h
+  | r :: rs, s, h => by
+    rw [run]
+    cases ha : add s r with
+    | none => rfl
+    | some s' =>
+      simp only
+      obtain ⟨r', hr', p, e1, e2, h1, h2⟩ := h
+      rcases List.mem_cons.1 hr' with rfl | hm
+      · rw [add_equal_larges_panics s r' p e1 e2 h1 h2] at ha; simp at ha
+      · exact run_none_of_equal_larges rs s' ⟨r', hm, p, e1, e2, h1, h2⟩
+
+/-- (4') EXACT CONDITION for histories whose large primes are below `u32::MAX`: the store goes through the whole
+history without a panic if and only if no relation has two equal large primes. (`sieve_block_poly` never builds one:
+for `q = p` it stores the exponent 2 in `large1` and leaves `large2` empty.) -/
+theorem store_total_iff_distinct (maxlarge : Nat) (rs : List Rel)
+    (h32 : ∀ r ∈ rs, (∀ pe, r.large1 = some pe → pe.1 + 1 < 2 ^ 32) ∧ (∀ pe, r.large2 = some pe → pe.1 + 1 < 2 ^ 32)) :
+    (∃ s, run { maxlarge := maxlarge } rs = some s) ↔
+      ∀ r ∈ rs, ∀ pe qe, r.large1 = some pe → r.large2 = some qe → pe.1 ≠ qe.1 := by
+  constructor
+  · rintro ⟨s, hs⟩ r hr ⟨p, e1⟩ ⟨q, e2⟩ h1 h2 heq
+    simp only at heq
+    subst heq
+    rw [run_none_of_equal_larges rs _ ⟨r, hr, p, e1, e2, h1, h2⟩] at hs
+    simp at hs
+  · intro h
+    exact store_total maxlarge rs (fun r hr => ⟨(h32 r hr).1, (h32 r hr).2, h r hr⟩)
+
+/-! ### `emit_hom` and genuine relations -/
+
+/-- the conclusion of `relation_genuine`: the entries of `r` are primes with normalised roots and the prime forms
+`[p]^{±1}` they stand for compose (iterated Dirichlet composition, up to order) to the principal form -/
+def Genuine (D : Int) (r : Rel) : Prop :=
+  (∀ pe ∈ r.entries, pe.2 ≠ 0 → pe.1.Prime ∧ IsBPlus D pe.1 (theRoot D pe.1)) ∧
+  ∃ L, L.Perm (expand D (theRoot D) r.entries) ∧ IsProduct D L (principal D)
+
+/-- (5) `emit_hom` COMPOSED WITH `relation_genuine`. The hypothesis of `emit_hom` ("the map kills every input
+relation") is, for the map "class of the product of the prime forms", the conclusion `Genuine D r` of
+`relation_genuine` / `relation_genuine_fundamental` / `relation_genuine_conductor` for every relation the sieve hands
+to `add`. Without a formalised class GROUP (composition well defined on classes) it cannot be fed to `emit_hom` as a
+homomorphism into an abelian group; through `emit_hom_map` it composes directly: for every history of `add` calls,
+if every relation added is genuine, every relation the store emits (every line of relations.sieve) is genuine. -/
+theorem emitted_relations_genuine (D : Int) (maxlarge : Nat) (rs : List Rel) (s : CSet)
+    (h : run { maxlarge := maxlarge } rs = some s) (hin : ∀ r ∈ rs, Genuine D r) :
+    ∀ r ∈ s.emitted, Genuine D r := by
+  intro r hr
+  have := emit_hom_map (fun r => Genuine D r) True maxlarge rs s h (fun r hr => eq_true (hin r hr)) r hr
+  exact of_eq_true this
+
 /-! ### non-vacuity -/
 
 example : xgcd 240 46 = (2, -9, 47) := by decide +kernel
@@ -122,5 +255,21 @@ example : (⟨2, 1, 3⟩ : Form).compose ⟨2, 1, 3⟩ = ⟨2, -1, 3⟩ ∧ (⟨
 example : (⟨2, 2, 11⟩ : Form).compose ⟨2, 2, 11⟩ = ⟨1, 0, 21⟩ ∧ (⟨2, 2, 11⟩ : Form).disc = -84 := by decide +kernel
 /-- concordant: D = -23, (2, 1, 3) and (3, 1, 2): a1 a2 = 6, c = 1 -/
 example : gcd3 2 3 1 = 1 ∧ (⟨2, 1, 3 * 1⟩ : Form).compose ⟨3, 1, 2 * 1⟩ = ⟨1, 1, 6⟩ := by decide +kernel
+
+/-- `reduce_reduced`: D = -23, (8, -3, 1) reduces to (1, 1, 6) -/
+example : (0 : Int) < (⟨8, -3, 1⟩ : Form).a ∧ (⟨8, -3, 1⟩ : Form).disc < 0 ∧
+    (⟨8, -3, 1⟩ : Form).reduce (reduceFuel ⟨8, -3, 1⟩) = ⟨1, 1, 6⟩ := by decide +kernel
+example : gcd3 8 (-3) 1 = 1 := by decide
+/-- `IsReducedPD` is satisfiable -/
+example : IsReducedPD ⟨2, -1, 3⟩ := by unfold IsReducedPD; decide
+/-- `add_equal_larges_panics` / `store_total_iff_distinct` -/
+example : add { maxlarge := 1000 } ⟨[(3, 1)], some (101, 1), some (101, 1)⟩ = none := by decide
+example : (run { maxlarge := 1000 } [⟨[(3, 1)], some (101, 1), some (103, 1)⟩]).isSome = true := by decide
+/-- hypotheses `h16`/`hcond` of `relation_genuine_conductor` on a non-fundamental discriminant: D = -3 · 5² = -75 ≡ 1 mod 4 -/
+example : ((-75 : Int) % 2 = 1) ∧ ((5 : Int) * 5 ∣ -75) ∧ 5 ∈ [5] := by decide
+/-- `Genuine` holds for the empty relation -/
+example : Genuine (-23) ⟨[], none, none⟩ := by
+  refine ⟨by simp [Rel.entries], [], ?_, IsProduct.nil⟩
+  simp [Rel.entries, expand]
 
 end Ymq.C18
